@@ -213,7 +213,9 @@ def run_case(case):
         return {"canvases": [r.d for r in recs], "alias": alias}
     except Exception as e:
         import traceback
-        return {"error": f"{type(e).__name__}: {e} {traceback.format_exc()[-400:]}"}
+        where = " <- ".join(f"{fr.filename.rsplit('/', 1)[-1]}:{fr.lineno} {fr.name}"
+                            for fr in reversed(traceback.extract_tb(e.__traceback__)[-4:]))
+        return {"error": f"{type(e).__name__}: {e} at {where} (step {locals().get('si')}: {locals().get('step')})"}
     finally:
         ITerm2Image._TERM = ""
         UrwidImageCanvas._ti_disguise_state = 0
